@@ -29,7 +29,8 @@ func init() {
 		Level: "exploration",
 		Rule: rule + "Oracle: tokens(Format(src)) = tokens(src) after dropping whitespace and normalising literals by value (independent tokenizer) - nothing dropped or rewritten; " +
 			"Format(src) parses; its syntax tree dump equals that of src; running both under the recorder gives identical traces; plus NUL bytes inserted at every token boundary of the " +
-			"seeds (accepted text may never be dropped). Non-trivial = the layout deviates from the canonical one.",
+			"seeds (accepted text may never be dropped); plus every seed with one stray token appended to a line or one punctuation token replaced by another - whatever of these the parser " +
+			"accepts goes through the same oracle. Non-trivial = the layout deviates from the canonical one.",
 		Assumptions: []string{"accepted texts that no legal layout of a generated tree produces are not explored (texts accepted by mistake are reached through C05's mutants)"},
 		TrustedBase: []string{"independent tokenizer in /verif/mc/checks/c06.go", "strconv for literal normalisation"},
 		Run:         func(w *fw.Worker) { runLayouts(w, "C06") },
@@ -51,7 +52,9 @@ func init() {
 		Level: "exploration",
 		Rule: rule + "Oracle: Format(Format(src)) = Format(src); every layout variant formats to the same text as its whitespace-equivalent base (same tree, same comments, same " +
 			"presence of blank runs and literal newlines, canonical amounts); the text is indented 4 spaces per block/literal level (recomputed from the text), has no trailing whitespace, " +
-			"never two consecutive blank lines, ends with exactly one newline; `evy fmt -c` (file and stdin) exits 0 on Format(src) and 1 on every src != Format(src), modifying nothing. " +
+			"never two consecutive blank lines, ends with exactly one newline; Format applied three times to the SAME Program object gives the same text each time; `evy fmt -c` (file and " +
+			"stdin) exits 0 on Format(src) and 1 on every src != Format(src), modifying nothing; `evy fmt -c` over every list of 1..3 files out of {formatted, unformatted} x {.evy, .txtar} " +
+			"exits 0 exactly when all are formatted. " +
 			"Non-trivial = the layout deviates from the canonical one.",
 		Assumptions: []string{"CLI runs are made for a deterministic subset (every n-th source)"},
 		TrustedBase: []string{"independent tokenizer / indentation recomputation in /verif/mc/checks/c06.go"},
